@@ -56,10 +56,13 @@ ROUND = {"a": 1, "b": 1, "c": 2, "d": 2, "e": 3, "f": 3, "g": 4, "h": 4, "i": 5,
 out = ["# Seeded changes x checks", "",
        "Each change was written by an independent sub-agent from the text of one property only (round = pair of variant letters:",
        "a,b / c,d / e,f / g,h / i,j / k,l / m,n / o,p / q,r / s,t / u,v; every later round was told the one-line summaries of the earlier ones).  Every line below is",
-       "what two scripts printed on scratch worktrees of the current `/repo` HEAD: `tools/seed_confirm.sh` (the patch applies, the 388",
-       "tests pass with it, the demo fails with it and passes without it) and `tools/seed_run.sh` (quick check of the seed's own property",
-       "against HEAD + patch; run from a committed snapshot of `/verif`).  What was missed when a round was first run, and what was",
-       "added because of it, is in DESIGN.md section 8.", "",
+       "what two scripts printed on scratch worktrees of `/repo`: `tools/seed_confirm.sh` (the patch applies, the 388",
+       "tests pass with it, the demo fails with it and passes without it; all 440 re-run on `/repo` HEAD c96b849) and `tools/seed_run.sh`",
+       "(quick check of the seed's own property against HEAD + patch; run from a committed snapshot of `/verif`).  The check runs are not",
+       "all of the same age: rounds 10-11 were run with the final harness (6ba38da) against c96b849; of rounds 1-9, the seeds C01a-C04f,",
+       "C06a-C06r, C11a-C14d and C16a-C16m were re-run with harness ec12f3e against c96b849, the others were last run with harness 9b7514e (a-p) /",
+       "0437266 (q, r) against `/repo` b4c4a7a -- re-running all 440 takes longer than the machine was free (later harness commits only add",
+       "observations).  What was missed when a round was first run, and what was added because of it, is in DESIGN.md section 8.", "",
        "| seed | round | summary | needs | still a breaking change on HEAD | caught by its own check (exit 1) | signatures (first 3) |", "|---|---|---|---|---|---|---|"]
 n = {"seeds": 0, "breaking": 0, "caught": 0, "cross": 0, "not": []}
 for seed in sorted(os.listdir(os.path.join(ROOT, "seeded"))):
